@@ -164,3 +164,31 @@ def F_of(I, entries, scale=None):
             e = I.concretize(f * p, limit=200, what='prefix*power')
             total *= Fraction(10) ** e
     return total
+
+
+# ---- hook-based replay cases (independent of the query parser) ----
+def entries_json(I, entries):
+    out = []
+    for u, p, f in entries:
+        if u in rt.BASE_UNITS: out.append([u, int(p), int(f)])
+        else: out.append([{'derived': int(I.get_static(u).val.items[0].v)}, int(p), int(f)])
+    return out
+def numeric_json(I, value, entries):
+    v = Fraction(value)
+    return {'value': f'{v.numerator}/{v.denominator}', 'unit': entries_json(I, entries)}
+def factor_case(I, tgt, src, value):
+    v = Fraction(value)
+    return {'op': 'factor', 'target': entries_json(I, tgt), 'source': entries_json(I, src), 'value': f'{v.numerator}/{v.denominator}'}
+def names_list(entries): return [[u, int(p), int(f)] for u, p, f in entries]
+
+def decl_si_factor(entries):
+    """SI factor of a concrete compound from the code's own declared scales (master side, for replay comparison)"""
+    import harness
+    I = harness.interp_for('dev')
+    f = Fraction(1)
+    for u, p, pre in entries:
+        u = resolve(I, u) if u not in rt.BASE_UNITS else u
+        sc = declared_scale(I, u)[1]
+        if sc is None: sc = U.scale_of(u)
+        f *= (Fraction(10) ** pre * sc) ** p
+    return f
